@@ -193,6 +193,10 @@ def _run_one(pid, spec, timeout, workdir, idx):
     env['PYTHONDONTWRITEBYTECODE'] = '1'
     env['PYTHONPATH'] = HERE + (':' + env['PYTHONPATH'] if env.get('PYTHONPATH') else '')
     env['VF_REPO'] = REPO
+    env.pop('PYTHONOPTIMIZE', None)
+    if spec.get('pyopt'):
+        # the properties do not depend on interpreter flags: some shards run with assertions compiled out
+        env['PYTHONOPTIMIZE'] = '1'
     cmd = [sys.executable, '-c',
            'import sys; from vf.core import shard_main; shard_main(*sys.argv[1:])',
            pid, specfile, outfile]
